@@ -38,7 +38,7 @@ def run(ctx):
             broken.append("coqchk rejects Props/%s.vo: %s" % (pid, cout[-800:]))
     if not proofs["ok"]:
         broken.append("proof obligations of Props/%s.v do not check: %s" % (pid, (proofs.get("broken_files") or proofs.get("nonstd_axioms") or proofs["log"][-800:])))
-    n = ctx.n(200, 2500)
+    n = ctx.n(200, 1200)
     to = 900 if ctx.tier == "quick" else 3600
     h1 = vf.go_harness(ctx, "index", "TestVerifC10$", ["index/zz_verif_c10_test.go"], n, timeout=to, out_name="out1.jsonl")
     # watchdog: corrupted postings can make searches spin; the e2e test is small, so a short timeout is a verdict, not a hiccup
